@@ -191,7 +191,9 @@ def interval_case(draw):
                     "d": draw(st.sampled_from([0, 1]) | st.integers(0, 400)), "h": draw(st.sampled_from([0, 1]) | st.integers(0, 100)),
                     "mi": draw(st.sampled_from([0]) | st.integers(0, 200)), "s": draw(st.sampled_from([0]) | st.integers(0, 5000)),
                     "frac": draw(st.sampled_from(["", "", "5", "25", "123456", "1234567"]))},
-            "zero": draw(st.sampled_from(["PT0S", "P0D", "P0W", "P0Y0M0DT0H0M0S", "PT0M", "P0Y", "PT0,0000004S", "PT0.0S", "P0M0D"]))}
+            "zero": draw(st.sampled_from(["PT0S", "P0D", "P0W", "P0Y0M0DT0H0M0S", "PT0M", "P0Y", "PT0,0000004S", "PT0.0S", "P0M0D"])),
+            "off2": draw(st.one_of(st.none(), st.just(0), st.integers(-1439, 1439).map(lambda x: x * 60))),
+            "tz": draw(st.sampled_from([None, None, "Europe/Paris", "America/New_York", "UTC"]))}
 
 
 def iso(w: D.datetime, off, z):
@@ -239,7 +241,20 @@ class Intervals(Sub):
             req(isinstance(r, Interval) and type(r.start) is DateTime and type(r.end) is DateTime, f"parse({s!r}) is not an Interval of DateTimes", got=repr(r))
             req(fields(r.start) == fields(wall) and fields(r.end) == fields(w2) and r.start.utcoffset() == expoff and r.end.utcoffset() == expoff,
                 f"parse({s!r}): endpoints are not the ones written", start=str(r.start), end=str(r.end))
-            return bool(off), form
+            # each endpoint carries its own designator (or none): it is exactly what the same text denotes on its own, whatever the other endpoint says
+            off2 = case.get("off2", off)
+            tzopt = case.get("tz")
+            kw = {"tz": tzopt} if tzopt else {}
+            ta, tb = iso(wall, off, z), iso(w2, off2, not z)
+            s2 = ta + "/" + tb
+            r2 = pendulum.parse(s2, **kw)
+            for nm, got, text, w_, o_ in (("start", r2.start, ta, wall, off), ("end", r2.end, tb, w2, off2)):
+                alone = pendulum.parse(text, **kw)
+                req(fields(got) == fields(w_) and got.utcoffset() == alone.utcoffset() and got.timezone_name == alone.timezone_name,
+                    f"parse({s2!r}, {kw}): the {nm} is not what {text!r} denotes on its own", got=str(got), alone=str(alone))
+                if o_ is not None:
+                    req(got.utcoffset() == D.timedelta(seconds=o_), f"parse({s2!r}, {kw}): the {nm} does not carry its written offset", got=str(got))
+            return bool(off) or off2 != off or bool(tzopt), form + (":mixed-designators" if (off is None) != (off2 is None) else "")
         ds = "P" + "".join(f"{c[k]}{u}" for k, u in (("y", "Y"), ("mo", "M"), ("d", "D")) if c[k])
         t = "".join(f"{c[k]}{u}" for k, u in (("h", "H"), ("mi", "M")) if c[k])
         if c["s"] or c["frac"]:
